@@ -272,3 +272,504 @@ Proof.
     + intros H. injection H as <- <-. left. repeat split.
       cbn [t_loop]. rewrite tkey_shape_tok, Ek, Ht. cbn [is_some]. rewrite Hg. reflexivity.
 Qed.
+
+(* ---------------------------------------------------------------- segments *)
+Fixpoint split_single (toks : list bytes) : list bytes * option (bytes * list bytes) :=
+  match toks with
+  | [] => ([], None)
+  | t :: r => if is_single t then ([], Some (t, r))
+              else let (lead, o) := split_single r in (t :: lead, o)
+  end.
+Lemma split_single_spec toks :
+  let (lead, o) := split_single toks in
+  no_single lead = true /\
+  match o with None => toks = lead | Some (t, r) => toks = lead ++ t :: r /\ is_single t = true end.
+Proof.
+  induction toks as [|t r IH]; cbn [split_single]; [split; reflexivity|].
+  destruct (is_single t) eqn:E; [split; [reflexivity|split; [reflexivity|exact E]]|].
+  destruct (split_single r) as [lead o]. destruct IH as [Hn Ho]. split.
+  - cbn [no_single forallb]. rewrite E. exact Hn.
+  - destruct o as [[t' r']|]; [destruct Ho as [-> Hs]; split; [reflexivity|exact Hs]|subst; reflexivity].
+Qed.
+Lemma split_single_length toks : match snd (split_single toks) with Some (t, r) => (length r < length toks)%nat | None => True end.
+Proof.
+  induction toks as [|t r IH]; cbn [split_single]; [exact I|].
+  destruct (is_single t); cbn [snd length]; [lia|].
+  destruct (split_single r) as [lead [[t' r']|]]; cbn [snd length] in *; [lia|exact I].
+Qed.
+
+Lemma segments_split toks : forall cs cb,
+  segments cs cb toks =
+  let (lead, o) := split_single toks in
+  match o with
+  | None => [(cs, rev cb ++ lead)]
+  | Some (t, r) => if single_is 120 t then [(cs, rev cb ++ lead); (t, r)] else (cs, rev cb ++ lead) :: segments t [] r
+  end.
+Proof.
+  induction toks as [|t r IH]; intros cs cb; cbn [segments split_single]; [rewrite app_nil_r; reflexivity|].
+  destruct (is_single t) eqn:E; [rewrite app_nil_r; reflexivity|].
+  rewrite (IH cs (t :: cb)). destruct (split_single r) as [lead o]. cbn [rev]. rewrite <- app_assoc. reflexivity.
+Qed.
+
+(* ---------------------------------------------------------------- dispatch over a block without singletons *)
+Lemma dispatch_lead lead : forall f su st acc R, no_single lead = true -> (length (lead ++ R) < f)%nat ->
+  dispatch f su st acc (lead ++ R) =
+  if forallb is_empty_tok lead then dispatch (f - length lead) su st acc R else Err InvalidExtension.
+Proof.
+  induction lead as [|t lead IH]; intros f su st acc R Hn Hf; cbn [app forallb length].
+  - rewrite Nat.sub_0_r. reflexivity.
+  - cbn [no_single forallb] in Hn. apply andb_true_iff in Hn as [Ht Hn]. unfold is_single in Ht. apply negb_true_iff in Ht.
+    cbn [app length] in Hf. destruct f as [|f]; [lia|]. cbn [dispatch].
+    destruct t as [|b r]; cbn [is_empty_tok andb].
+    + cbn [length Nat.ltb Nat.leb]. rewrite (IH f su st acc R Hn ltac:(lia)). reflexivity.
+    + assert ((1 <? length (b :: r))%nat = true) as -> by (cbn [length] in *; lia). reflexivity.
+Qed.
+
+(* ---------------------------------------------------------------- -x- *)
+Lemma x_collect_spec toks : x_collect toks = if forallb priv_tok toks then Ok (map lower toks) else Err InvalidSubtag.
+Proof.
+  induction toks as [|t toks IH]; cbn [x_collect forallb map]; [reflexivity|].
+  rewrite parse_value_spec. destruct (priv_tok t); cbn [bind andb]; [|reflexivity].
+  rewrite IH. destruct (forallb priv_tok toks); reflexivity.
+Qed.
+Lemma x_parse_spec toks : x_parse toks = match x_body_spec toks with Some (x, _) => Ok x | None => Err InvalidSubtag end.
+Proof. unfold x_parse, x_body_spec. rewrite x_collect_spec. destruct (forallb priv_tok toks); reflexivity. Qed.
+
+(* ---------------------------------------------------------------- one -u- segment *)
+Lemma bad2_not_empty rest : bad2 rest = true -> forallb is_empty_tok rest = false.
+Proof. destruct rest as [|[|a r] rest']; cbn; try discriminate; reflexivity. Qed.
+
+Lemma u_segment body R : ext_stop R ->
+  match kw_spec ukey_tok utype_tok (drop_while attr_tok body) None with
+  | Some (m, rest) =>
+    (forallb is_empty_tok rest = false /\ exists e, u_parse (body ++ R) = Err e)
+    \/ u_parse (body ++ R) = Ok (mkU (ins_all m []) (dedup (sort (map lower (take_while attr_tok body)))), rest ++ R)
+  | None => False
+  end.
+Proof.
+  intros HR. destruct (kw_spec_total ukey_tok utype_tok (drop_while attr_tok body) None) as (m & rest & E). rewrite E.
+  pose proof (u_attr_rel body [] m rest E) as Rl. unfold u_parse. rewrite (u_loop_app body None [] [] [] R HR).
+  destruct (bad2 rest) eqn:B.
+  - left. split; [apply bad2_not_empty; exact B|]. destruct Rl as [e ->]. eauto.
+  - right. rewrite Rl. reflexivity.
+Qed.
+
+(* ---------------------------------------------------------------- one -t- segment *)
+Definition t_pieces (body : list bytes) : option langid * list bytes :=
+  match body with
+  | h :: _ =>
+    if lang_tok h then
+      match spec_langid_prefix body with
+      | Some (v, rest) => (Some v, rest)
+      | None => (None, body)
+      end
+    else (None, body)
+  | [] => (None, [])
+  end.
+
+Lemma no_single_drop_while q l : no_single l = true -> no_single (drop_while q l) = true.
+Proof. induction l as [|x l IH]; cbn [drop_while no_single forallb]; [reflexivity|]. intros H. destruct (q x); [apply IH; apply andb_true_iff in H as [_ H]; exact H|exact H]. Qed.
+Lemma no_single_tail x l : no_single (x :: l) = true -> no_single l = true.
+Proof. cbn [no_single forallb]. intros H. apply andb_true_iff in H as [_ H]. exact H. Qed.
+
+Lemma spec_langid_prefix_rest body v r1 : no_single body = true -> spec_langid_prefix body = Some (v, r1) -> body <> [] ->
+  no_single r1 = true /\ (length r1 < length body)%nat.
+Proof.
+  intros Hn H Hne. destruct body as [|l rest]; [congruence|]. cbn [spec_langid_prefix] in H.
+  destruct (lang_tok l); [|discriminate].
+  destruct (take_script rest) as [sc ra] eqn:Es. destruct (take_region ra) as [rg rb] eqn:Er.
+  injection H as _ <-. pose proof (no_single_tail _ _ Hn) as Hr.
+  assert (Ha : no_single ra = true /\ (length ra <= length rest)%nat).
+  { destruct rest as [|t r]; cbn [take_script] in Es; [injection Es as _ <-; auto|].
+    destruct (script_tok t); injection Es as _ <-; [split; [exact (no_single_tail _ _ Hr)|cbn [length]; lia]|auto]. }
+  destruct Ha as [Ha La].
+  assert (Hb : no_single rb = true /\ (length rb <= length ra)%nat).
+  { destruct ra as [|t r]; cbn [take_region] in Er; [injection Er as _ <-; auto|].
+    destruct (region_tok t); injection Er as _ <-; [split; [exact (no_single_tail _ _ Ha)|cbn [length]; lia]|auto]. }
+  destruct Hb as [Hb Lb]. split; [apply no_single_drop_while; exact Hb|].
+  pose proof (drop_while_shorter variant_tok rb). cbn [length]. lia.
+Qed.
+
+Lemma tkey_not_langshape t : tkey_tok t = true -> is_language_subtag t = false /\ lang_tok t = false.
+Proof.
+  destruct t as [|a [|b [|c r]]]; cbn [tkey_tok]; try discriminate. intros H. apply andb_true_iff in H as [_ Hb].
+  assert (is_alpha b = false) by (unfold is_alpha, is_upper, is_lower, is_digit, in_range in *; lia).
+  unfold is_language_subtag, lang_tok. rewrite existsb_negb_forallb. cbn [forallb]. rewrite H.
+  cbn [andb]. rewrite !andb_false_r. cbn [andb]. split; reflexivity.
+Qed.
+
+Lemma t_segment body R : no_single body = true -> ext_stop R ->
+  let (tl, r1) := t_pieces body in
+  match kw_spec tkey_tok tvalue_tok r1 None with
+  | Some (m, rest) =>
+    t_parse (body ++ R) = Ok (mkT tl (ins_all m []), rest ++ R)
+    \/ ((exists e, t_parse (body ++ R) = Err e) /\ rest <> [])
+  | None => False
+  end.
+Proof.
+  intros Hn HR. unfold t_parse.
+  set (F := S (length (body ++ R))).
+  assert (HF : (length (body ++ R) < F)%nat) by (unfold F; lia).
+  rewrite (t_loop_app F body None [] [] None R HR HF).
+  assert (HFb : (length body < F)%nat) by (unfold F; rewrite app_length; lia).
+  clearbody F. destruct body as [|t b].
+  - cbn [t_pieces kw_spec]. left. destruct F; [lia|]. reflexivity.
+  - pose proof Hn as Hn0. cbn [no_single forallb] in Hn. apply andb_true_iff in Hn as [Ht Hnb]. unfold is_single in Ht. apply negb_true_iff in Ht.
+    destruct (tkey_tok t) eqn:Ek.
+    + destruct (tkey_not_langshape t Ek) as [Hls Hlt]. cbn [t_pieces]. rewrite Hlt.
+      destruct (kw_spec_total tkey_tok tvalue_tok (t :: b) None) as (m & rest & E). rewrite E.
+      pose proof (t_nokey_rel (t :: b) F None m rest Hn0 HFb ltac:(cbn [is_none andb]; exact Hls) E) as Rl.
+      destruct rest as [|r0 rest'].
+      * left. rewrite Rl. reflexivity.
+      * destruct Rl as [(-> & Er & Rl)|[e Rl]]; [left; rewrite Rl, Er; reflexivity|right; split; [rewrite Rl; eauto|congruence]].
+    + destruct (is_language_subtag t) eqn:Els.
+      * (* language-shaped head *)
+        destruct F as [|f]; [lia|]. cbn [length] in HFb.
+        destruct (lang_tok t) eqn:Elt.
+        -- cbn [t_pieces]. rewrite Elt.
+           assert (exists v r1, spec_langid_prefix (t :: b) = Some (v, r1)) as (v & r1 & Ep).
+           { cbn [spec_langid_prefix]. rewrite Elt. destruct (take_script b) as [sc ra]. destruct (take_region ra) as [rg rb]. eauto. }
+           rewrite Ep. destruct (spec_langid_prefix_rest (t :: b) v r1 Hn0 Ep ltac:(congruence)) as [Hn1 L1]. cbn [length] in L1.
+           destruct (kw_spec_total tkey_tok tvalue_tok r1 None) as (m & rest & E). rewrite E.
+           pose proof (t_nokey_rel r1 f (Some v) m rest Hn1 ltac:(lia) eq_refl E) as Rl.
+           cbn [t_loop]. rewrite tkey_shape_tok, Ek, Ht. cbn [is_some is_none andb]. rewrite Els.
+           rewrite langid_from_iter_spec, Ep. cbn [negb andb].
+           destruct rest as [|r0 rest'].
+           ++ left. rewrite Rl. reflexivity.
+           ++ destruct Rl as [(-> & Er & Rl)|[e Rl]]; [left; rewrite Rl, Er; reflexivity|right; split; [rewrite Rl; eauto|congruence]].
+        -- cbn [t_pieces]. rewrite Elt. cbn [kw_spec]. rewrite Ek. right. split; [|congruence].
+           cbn [t_loop]. rewrite tkey_shape_tok, Ek, Ht. cbn [is_some is_none andb]. rewrite Els.
+           rewrite langid_from_iter_spec. cbn [spec_langid_prefix]. rewrite Elt. eauto.
+      * (* neither a key nor language-shaped: the extension ends here *)
+        assert (Elt : lang_tok t = false).
+        { destruct (lang_tok t) eqn:E; [|reflexivity]. destruct (is_language_subtag_lang t E) as [C _]. congruence. }
+        cbn [t_pieces]. rewrite Elt. cbn [kw_spec]. rewrite Ek. left.
+        destruct F as [|f]; [lia|]. cbn [t_loop]. rewrite tkey_shape_tok, Ek, Ht. cbn [is_some is_none andb]. rewrite Els. reflexivity.
+Qed.
+
+(* ---------------------------------------------------------------- the whole dispatch against `process` *)
+Lemma kw_spec_no_single kt vt toks : forall cur m rest,
+  kw_spec kt vt toks cur = Some (m, rest) -> no_single toks = true -> no_single rest = true.
+Proof.
+  induction toks as [|t toks IH]; intros cur m rest; cbn [kw_spec]; [intros H _; injection H as _ <-; reflexivity|].
+  intros H Hn. pose proof (no_single_tail _ _ Hn) as Hn'.
+  destruct (kt t).
+  - destruct (kw_spec kt vt toks (Some (lower t, []))) as [[m' rest']|] eqn:E; [|discriminate].
+    injection H as _ <-. exact (IH _ _ _ E Hn').
+  - destruct cur as [[k vs]|]; [|injection H as _ <-; exact Hn].
+    destruct (vt t); [exact (IH _ _ _ H Hn')|injection H as _ <-; exact Hn].
+Qed.
+
+Definition proc_from (R : list bytes) (a : acc) : option acc :=
+  match R with
+  | [] => Some a
+  | s :: r => if single_is 120 s then process [(s, r)] a else process (segments s [] r) a
+  end.
+Definition acc_val (a : acc) : extmap :=
+  mkE (or_default (ac_u a) uext_default) (or_default (ac_t a) text_default) (or_default (ac_x a) []).
+Definition rel (su st : bool) (ac : extmap) (a : acc) : Prop :=
+  su = is_some (ac_u a) /\ st = is_some (ac_t a) /\ ac_x a = None /\ e_private ac = [] /\
+  (ac_nodup a = true ->
+   e_unicode ac = or_default (ac_u a) uext_default /\ e_transform ac = or_default (ac_t a) text_default).
+
+(* the segments after a non-x singleton, in terms of the next singleton *)
+Lemma segments_next s r : single_is 120 s = false ->
+  segments s [] r =
+  let (body, o) := split_single r in
+  (s, body) :: match o with None => [] | Some (t, r') => if single_is 120 t then [(t, r')] else segments t [] r' end.
+Proof.
+  intros _. rewrite segments_split. destruct (split_single r) as [body [[t r']|]]; cbn [rev app]; [|reflexivity].
+  destruct (single_is 120 t); reflexivity.
+Qed.
+Lemma process_tail_is_proc_from o a :
+  process (match o with None => [] | Some (t, r') => if single_is 120 t then [(t, r')] else segments t [] r' end) a
+  = proc_from (match o with None => [] | Some (t, r') => t :: r' end) a.
+Proof. destruct o as [[t r']|]; [|reflexivity]. cbn [proc_from]. destruct (single_is 120 t); reflexivity. Qed.
+
+Lemma single_is_type s c : is_single s = true ->
+  single_is c s = match s with [b] => to_lower b =? c | _ => false end.
+Proof. reflexivity. Qed.
+Lemma ext_type_single b :
+  ext_type_from_byte b =
+  if to_lower b =? 117 then Ok EUnicode else if to_lower b =? 116 then Ok ETransform else if to_lower b =? 120 then Ok EPrivate
+  else if is_alnum (to_lower b) then Ok (EOther (to_lower b)) else Err InvalidExtension.
+Proof. reflexivity. Qed.
+
+Lemma o_stop (o : option (bytes * list bytes)) : (match o with Some (t, _) => is_single t = true | None => True end) ->
+  ext_stop (match o with None => [] | Some (t, r') => t :: r' end).
+Proof. destruct o as [[t r']|]; cbn; [unfold is_single; intros H; apply Nat.eqb_eq; exact H|auto]. Qed.
+
+(* SOUNDNESS of the dispatch loop *)
+Lemma dispatch_sound n : forall R, (length R <= n)%nat -> ext_stop R ->
+  forall f su st ac a e, (length R < f)%nat -> rel su st ac a -> dispatch f su st ac R = Ok e ->
+  exists a', proc_from R a = Some a' /\ (ac_nodup a' = true -> e = acc_val a').
+Proof.
+  induction n as [|n IH]; intros R Hlen HR f su st ac a e Hf (Hsu & Hst & Hx & Hp & Hnd) Hd.
+  - destruct R; [|cbn [length] in Hlen; lia]. destruct f; [lia|]. cbn [dispatch] in Hd. injection Hd as <-.
+    exists a. split; [reflexivity|]. intros N. destruct (Hnd N) as [E1 E2]. unfold acc_val. rewrite <- E1, <- E2, Hx. cbn [or_default]. rewrite <- Hp.
+    destruct ac; reflexivity.
+  - destruct R as [|s r].
+    + destruct f; [lia|]. cbn [dispatch] in Hd. injection Hd as <-.
+      exists a. split; [reflexivity|]. intros N. destruct (Hnd N) as [E1 E2]. unfold acc_val. rewrite <- E1, <- E2, Hx. cbn [or_default]. rewrite <- Hp.
+      destruct ac; reflexivity.
+    + cbn in HR. destruct s as [|b [|c s']]; try discriminate. clear HR.
+      destruct f as [|f]; [lia|]. cbn [length] in Hf, Hlen. cbn [dispatch length Nat.ltb Nat.leb] in Hd.
+      rewrite ext_type_single in Hd. cbn [proc_from single_is].
+      pose proof (split_single_spec r) as SP. pose proof (split_single_length r) as SL.
+      destruct (to_lower b =? 117) eqn:E117.
+      * (* -u- *)
+        assert ((to_lower b =? 120) = false) as E120 by (apply N.eqb_eq in E117; rewrite E117; reflexivity).
+        rewrite E120. rewrite (segments_next [b] r ltac:(cbn [single_is]; exact E120)).
+        destruct (split_single r) as [body o]. destruct SP as [Hnb Ho]. cbn [snd] in SL.
+        set (R' := match o with None => [] | Some (t, r') => t :: r' end) in *.
+        assert (Er : r = body ++ R') by (destruct o as [[t r']|]; [destruct Ho as [-> _]; reflexivity|subst; subst R'; rewrite app_nil_r; reflexivity]).
+        assert (HR' : ext_stop R') by (apply o_stop; destruct o as [[t r']|]; [apply Ho|exact I]).
+        destruct su; [discriminate|]. cbn [process single_is]. rewrite E117.
+        destruct (ac_u a) as [ua|] eqn:Eua; [cbn [is_some] in Hsu; discriminate|].
+        pose proof (u_segment body R' HR') as US. unfold u_body_spec.
+        destruct (kw_spec ukey_tok utype_tok (drop_while attr_tok body) None) as [[m rest]|] eqn:Ekw; [|destruct US].
+        rewrite Er in Hd.
+        destruct US as [[_ [e0 US]]|US]; rewrite US in Hd; cbn [bind fst snd] in Hd; [discriminate|].
+        assert (Hnr : no_single rest = true) by (eapply kw_spec_no_single; [exact Ekw|apply no_single_drop_while; exact Hnb]).
+        assert (Lr : (length rest <= length body)%nat).
+        { pose proof (u_loop_total None [] [] [] body) as [_ S0]. pose proof (u_attr_rel body [] m rest Ekw) as Rl.
+          destruct (bad2 rest); [destruct Rl as [e1 Rl]; unfold u_parse in US; rewrite (u_loop_app body None [] [] [] R' HR'), Rl in US; discriminate|].
+          exact (S0 _ _ Rl). }
+        assert (Hf2 : (length (rest ++ R') < f)%nat) by (rewrite Er in Hf; rewrite app_length in *; lia).
+        rewrite (dispatch_lead rest f true st _ R' Hnr Hf2) in Hd.
+        destruct (forallb is_empty_tok rest) eqn:Eemp; [|discriminate].
+        set (a1 := mkAcc (Some (mkU (kv_sort m) (dedup (sort (map lower (take_while attr_tok body)))))) (ac_t a) (ac_x a)
+                         (ac_strict a && (negb (nil_b body) && nil_b rest)) (ac_nodup a && keys_nodup m)).
+        assert (Hlen' : (length R' <= n)%nat).
+        { subst R'. destruct o as [[t r']|]; cbn [length] in *; lia. }
+        assert (Hf3 : (length R' < f - length rest)%nat) by (rewrite Er in Hf; rewrite !app_length in *; lia).
+        match type of Hd with dispatch ?f' ?su' ?st' ?ac' _ = _ => destruct (IH R' Hlen' HR' f' su' st' ac' a1 e Hf3) as (a' & Pa & Va); [|exact Hd|] end.
+        { unfold rel, a1. cbn [ac_u ac_t ac_x ac_nodup e_unicode e_transform e_private is_some]. repeat split; auto.
+          all: match goal with H : _ && _ = true |- _ => apply andb_true_iff in H as [N1 N2] end.
+          - cbn [or_default]. rewrite (ins_all_kv_sort m N2). reflexivity.
+          - exact (proj2 (Hnd N1)). }
+        exists a'. split; [|exact Va]. rewrite process_tail_is_proc_from. fold R'. exact Pa.
+      * destruct (to_lower b =? 116) eqn:E116.
+        -- (* -t- *)
+           assert ((to_lower b =? 120) = false) as E120 by (apply N.eqb_eq in E116; rewrite E116; reflexivity).
+           rewrite E120. rewrite (segments_next [b] r ltac:(cbn [single_is]; exact E120)).
+           destruct (split_single r) as [body o]. destruct SP as [Hnb Ho]. cbn [snd] in SL.
+           set (R' := match o with None => [] | Some (t, r') => t :: r' end) in *.
+           assert (Er : r = body ++ R') by (destruct o as [[t r']|]; [destruct Ho as [-> _]; reflexivity|subst; subst R'; rewrite app_nil_r; reflexivity]).
+           assert (HR' : ext_stop R') by (apply o_stop; destruct o as [[t r']|]; [apply Ho|exact I]).
+           destruct st; [discriminate|]. cbn [process single_is]. rewrite E117, E116.
+           destruct (ac_t a) as [ta|] eqn:Eta; [cbn [is_some] in Hst; discriminate|].
+           pose proof (t_segment body R' Hnb HR') as TS. unfold t_body_spec. fold (t_pieces body).
+           destruct (t_pieces body) as [tl r1] eqn:Etp. cbn [fst snd].
+           destruct (kw_spec tkey_tok tvalue_tok r1 None) as [[m rest]|] eqn:Ekw; [|destruct TS].
+           rewrite Er in Hd.
+           destruct TS as [TS|[[e0 TS] _]]; rewrite TS in Hd; cbn [bind fst snd] in Hd; [|discriminate].
+           assert (Hn1 : no_single r1 = true /\ (length r1 <= length body)%nat).
+           { unfold t_pieces in Etp. destruct body as [|h b']; [injection Etp as _ <-; auto|].
+             destruct (lang_tok h); [|injection Etp as _ <-; auto].
+             destruct (spec_langid_prefix (h :: b')) as [[v rr]|] eqn:Ep; [|injection Etp as _ <-; auto].
+             injection Etp as _ <-. destruct (spec_langid_prefix_rest (h :: b') v rr Hnb Ep ltac:(congruence)). split; [assumption|lia]. }
+           destruct Hn1 as [Hn1 L1].
+           assert (Hnr : no_single rest = true) by (eapply kw_spec_no_single; [exact Ekw|exact Hn1]).
+           assert (Lr : (length rest <= length body)%nat).
+           { pose proof (t_parse_total (body ++ R')) as [_ S0]. specialize (S0 _ _ TS). unfold shorter in S0. rewrite !app_length in S0. lia. }
+           assert (Hf2 : (length (rest ++ R') < f)%nat) by (rewrite Er in Hf; rewrite app_length in *; lia).
+           rewrite (dispatch_lead rest f su true _ R' Hnr Hf2) in Hd.
+           destruct (forallb is_empty_tok rest) eqn:Eemp; [|discriminate].
+           set (a1 := mkAcc (ac_u a) (Some (mkT tl (kv_sort m))) (ac_x a)
+                            (ac_strict a && (negb (nil_b body) && nil_b rest && all_have_values r1 tkey_tok)) (ac_nodup a && keys_nodup m)).
+           assert (Hlen' : (length R' <= n)%nat).
+           { subst R'. destruct o as [[t r']|]; cbn [length] in *; lia. }
+           assert (Hf3 : (length R' < f - length rest)%nat) by (rewrite Er in Hf; rewrite !app_length in *; lia).
+           match type of Hd with dispatch ?f' ?su' ?st' ?ac' _ = _ => destruct (IH R' Hlen' HR' f' su' st' ac' a1 e Hf3) as (a' & Pa & Va); [|exact Hd|] end.
+           { unfold rel, a1. cbn [ac_u ac_t ac_x ac_nodup e_unicode e_transform e_private is_some]. repeat split; auto.
+             all: match goal with H : _ && _ = true |- _ => apply andb_true_iff in H as [N1 N2] end.
+             - exact (proj1 (Hnd N1)).
+             - cbn [or_default]. rewrite (ins_all_kv_sort m N2). reflexivity. }
+           exists a'. split; [|exact Va]. rewrite process_tail_is_proc_from. fold R'. exact Pa.
+        -- destruct (to_lower b =? 120) eqn:E120.
+           ++ (* -x- *)
+              cbn [process single_is]. rewrite E117, E116, E120. rewrite Hx.
+              rewrite x_parse_spec in Hd. destruct (x_body_spec r) as [[x sr]|]; cbn [bind] in Hd; [|discriminate].
+              injection Hd as <-. eexists. split; [reflexivity|]. cbn [ac_nodup]. intros N. apply andb_true_iff in N as [N1 _].
+              destruct (Hnd N1) as [E1 E2]. unfold acc_val. cbn [ac_u ac_t ac_x or_default]. rewrite E1, E2. reflexivity.
+           ++ destruct (is_alnum (to_lower b)); discriminate.
+Qed.
+
+Lemma process_mono segs : forall a a', process segs a = Some a' ->
+  (ac_strict a' = true -> ac_strict a = true) /\ (ac_nodup a' = true -> ac_nodup a = true).
+Proof.
+  induction segs as [|[s body] segs IH]; intros a a'; cbn [process]; [intros H; injection H as <-; auto|].
+  destruct (single_is 117 s).
+  - destruct (ac_u a); [discriminate|]. destruct (u_body_spec body) as [[u sr]|]; [|discriminate].
+    intros H. destruct (IH _ _ H) as [M1 M2]. cbn [ac_strict ac_nodup] in *. split; intros X.
+    + specialize (M1 X). apply andb_true_iff in M1 as [M1 _]. exact M1.
+    + specialize (M2 X). apply andb_true_iff in M2 as [M2 _]. exact M2.
+  - destruct (single_is 116 s).
+    + destruct (ac_t a); [discriminate|]. destruct (t_body_spec body) as [[u sr]|]; [|discriminate].
+      intros H. destruct (IH _ _ H) as [M1 M2]. cbn [ac_strict ac_nodup] in *. split; intros X.
+      * specialize (M1 X). apply andb_true_iff in M1 as [M1 _]. exact M1.
+      * specialize (M2 X). apply andb_true_iff in M2 as [M2 _]. exact M2.
+    + destruct (single_is 120 s); [|discriminate].
+      destruct (ac_x a); [discriminate|]. destruct (x_body_spec body) as [[u sr]|]; [|discriminate].
+      intros H. destruct (IH _ _ H) as [M1 M2]. cbn [ac_strict ac_nodup] in *. split; intros X.
+      * specialize (M1 X). apply andb_true_iff in M1 as [M1 _]. exact M1.
+      * specialize (M2 X). apply andb_true_iff in M2 as [M2 _]. exact M2.
+Qed.
+Lemma proc_from_mono R a a' : proc_from R a = Some a' ->
+  (ac_strict a' = true -> ac_strict a = true) /\ (ac_nodup a' = true -> ac_nodup a = true).
+Proof.
+  destruct R as [|s r]; cbn [proc_from]; [intros H; injection H as <-; auto|].
+  destruct (single_is 120 s); apply process_mono.
+Qed.
+
+(* COMPLETENESS of the dispatch loop on strict input without duplicate keys *)
+Lemma dispatch_complete n : forall R, (length R <= n)%nat -> ext_stop R ->
+  forall f su st ac a a', (length R < f)%nat -> rel su st ac a ->
+  proc_from R a = Some a' -> ac_strict a' = true -> ac_nodup a' = true ->
+  dispatch f su st ac R = Ok (acc_val a').
+Proof.
+  induction n as [|n IH]; intros R Hlen HR f su st ac a a' Hf (Hsu & Hst & Hx & Hp & Hnd) Hpf Hs' Hn'.
+  - destruct R; [|cbn [length] in Hlen; lia]. destruct f; [lia|]. cbn [proc_from] in Hpf. injection Hpf as <-.
+    cbn [dispatch]. destruct (Hnd Hn') as [E1 E2]. unfold acc_val. rewrite <- E1, <- E2, Hx. cbn [or_default]. rewrite <- Hp. destruct ac; reflexivity.
+  - destruct R as [|s r].
+    + destruct f; [lia|]. cbn [proc_from] in Hpf. injection Hpf as <-.
+      cbn [dispatch]. destruct (Hnd Hn') as [E1 E2]. unfold acc_val. rewrite <- E1, <- E2, Hx. cbn [or_default]. rewrite <- Hp. destruct ac; reflexivity.
+    + cbn in HR. destruct s as [|b [|c s']]; try discriminate. clear HR.
+      destruct f as [|f]; [lia|]. cbn [length] in Hf, Hlen. cbn [dispatch length Nat.ltb Nat.leb].
+      rewrite ext_type_single. cbn [proc_from single_is] in Hpf.
+      pose proof (split_single_spec r) as SP. pose proof (split_single_length r) as SL.
+      destruct (to_lower b =? 117) eqn:E117.
+      * assert ((to_lower b =? 120) = false) as E120 by (apply N.eqb_eq in E117; rewrite E117; reflexivity).
+        rewrite E120 in Hpf. rewrite (segments_next [b] r ltac:(cbn [single_is]; exact E120)) in Hpf.
+        destruct (split_single r) as [body o]. destruct SP as [Hnb Ho]. cbn [snd] in SL.
+        set (R' := match o with None => [] | Some (t, r') => t :: r' end) in *.
+        assert (Er : r = body ++ R') by (destruct o as [[t r']|]; [destruct Ho as [-> _]; reflexivity|subst; subst R'; rewrite app_nil_r; reflexivity]).
+        assert (HR' : ext_stop R') by (apply o_stop; destruct o as [[t r']|]; [apply Ho|exact I]).
+        cbn [process single_is] in Hpf. rewrite E117 in Hpf.
+        destruct (ac_u a) as [ua|] eqn:Eua; [discriminate|]. cbn [is_some] in Hsu. subst su.
+        pose proof (u_segment body R' HR') as US. unfold u_body_spec in Hpf.
+        destruct (kw_spec ukey_tok utype_tok (drop_while attr_tok body) None) as [[m rest]|] eqn:Ekw; [|destruct US].
+        destruct (forallb is_empty_tok rest) eqn:Eemp; [|discriminate].
+        rewrite process_tail_is_proc_from in Hpf. fold R' in Hpf.
+        destruct (proc_from_mono _ _ _ Hpf) as [M1 M2]. specialize (M1 Hs'). specialize (M2 Hn'). cbn [ac_strict ac_nodup] in M1, M2.
+        apply andb_true_iff in M1 as [Ms Msr]. apply andb_true_iff in Msr as [_ Mrest]. apply andb_true_iff in M2 as [Mn Mk].
+        destruct rest as [|r0 rest']; [|discriminate]. clear Mrest.
+        destruct US as [[C _]|US]; [discriminate|]. rewrite Er, US. cbn [bind fst snd app].
+        assert (Hlen' : (length R' <= n)%nat) by (subst R'; destruct o as [[t r']|]; cbn [length] in *; lia).
+        assert (Hf3 : (length R' < f)%nat) by (rewrite Er in Hf; rewrite app_length in Hf; lia).
+        match type of Hpf with proc_from _ ?a1 = _ => apply (IH R' Hlen' HR' f true st _ a1 a' Hf3); [|exact Hpf|exact Hs'|exact Hn'] end.
+        unfold rel. cbn [ac_u ac_t ac_x ac_nodup e_unicode e_transform e_private is_some]. repeat split; auto.
+        all: match goal with H : _ && _ = true |- _ => apply andb_true_iff in H as [N1 N2] end.
+        -- cbn [or_default]. rewrite (ins_all_kv_sort m N2). reflexivity.
+        -- exact (proj2 (Hnd N1)).
+      * destruct (to_lower b =? 116) eqn:E116.
+        -- assert ((to_lower b =? 120) = false) as E120 by (apply N.eqb_eq in E116; rewrite E116; reflexivity).
+           rewrite E120 in Hpf. rewrite (segments_next [b] r ltac:(cbn [single_is]; exact E120)) in Hpf.
+           destruct (split_single r) as [body o]. destruct SP as [Hnb Ho]. cbn [snd] in SL.
+           set (R' := match o with None => [] | Some (t, r') => t :: r' end) in *.
+           assert (Er : r = body ++ R') by (destruct o as [[t r']|]; [destruct Ho as [-> _]; reflexivity|subst; subst R'; rewrite app_nil_r; reflexivity]).
+           assert (HR' : ext_stop R') by (apply o_stop; destruct o as [[t r']|]; [apply Ho|exact I]).
+           cbn [process single_is] in Hpf. rewrite E117, E116 in Hpf.
+           destruct (ac_t a) as [ta|] eqn:Eta; [discriminate|]. cbn [is_some] in Hst. subst st.
+           pose proof (t_segment body R' Hnb HR') as TS. unfold t_body_spec in Hpf. fold (t_pieces body) in Hpf.
+           destruct (t_pieces body) as [tl r1] eqn:Etp. cbn [fst snd] in Hpf.
+           destruct (kw_spec tkey_tok tvalue_tok r1 None) as [[m rest]|] eqn:Ekw; [|destruct TS].
+           destruct (forallb is_empty_tok rest) eqn:Eemp; [|discriminate].
+           rewrite process_tail_is_proc_from in Hpf. fold R' in Hpf.
+           destruct (proc_from_mono _ _ _ Hpf) as [M1 M2]. specialize (M1 Hs'). specialize (M2 Hn'). cbn [ac_strict ac_nodup] in M1, M2.
+           apply andb_true_iff in M1 as [Ms Msr]. apply andb_true_iff in Msr as [Msr _]. apply andb_true_iff in Msr as [_ Mrest]. apply andb_true_iff in M2 as [Mn Mk].
+           destruct rest as [|r0 rest']; [|discriminate]. clear Mrest.
+           destruct TS as [TS|[_ C]]; [|congruence]. rewrite Er, TS. cbn [bind fst snd app].
+           assert (Hlen' : (length R' <= n)%nat) by (subst R'; destruct o as [[t r']|]; cbn [length] in *; lia).
+           assert (Hf3 : (length R' < f)%nat) by (rewrite Er in Hf; rewrite app_length in Hf; lia).
+           match type of Hpf with proc_from _ ?a1 = _ => apply (IH R' Hlen' HR' f su true _ a1 a' Hf3); [|exact Hpf|exact Hs'|exact Hn'] end.
+           unfold rel. cbn [ac_u ac_t ac_x ac_nodup e_unicode e_transform e_private is_some]. repeat split; auto.
+           all: match goal with H : _ && _ = true |- _ => apply andb_true_iff in H as [N1 N2] end.
+           ++ exact (proj1 (Hnd N1)).
+           ++ cbn [or_default]. rewrite (ins_all_kv_sort m N2). reflexivity.
+        -- destruct (to_lower b =? 120) eqn:E120.
+           2:{ rewrite (segments_next [b] r ltac:(cbn [single_is]; exact E120)) in Hpf.
+               destruct (split_single r) as [body o]. cbn [process single_is] in Hpf. rewrite E117, E116, E120 in Hpf. discriminate. }
+           cbn [process single_is] in Hpf. rewrite E117, E116, E120, Hx in Hpf.
+           rewrite x_parse_spec. destruct (x_body_spec r) as [[x sr]|]; [|discriminate]. cbn [process] in Hpf. injection Hpf as <-.
+           cbn [bind]. cbn [ac_nodup] in Hn'. apply andb_true_iff in Hn' as [N1 _].
+           destruct (Hnd N1) as [E1 E2]. unfold acc_val. cbn [ac_u ac_t ac_x or_default]. rewrite E1, E2. reflexivity.
+Qed.
+
+(* ---------------------------------------------------------------- C03 *)
+Lemma zone_shape toks id rem :
+  toks <> [] -> spec_langid_prefix toks = Some (id, rem) ->
+  spec_locale_zone toks =
+  let (lead, o) := split_single rem in
+  if forallb is_empty_tok lead then
+    match proc_from (match o with None => [] | Some (t, r') => t :: r' end) (mkAcc None None None (nil_b lead) true) with
+    | Some a => if negb (ac_nodup a) then Outside
+                else if ac_strict a then MustAccept (mkLoc id (acc_val a)) else Either (mkLoc id (acc_val a))
+    | None => MustReject
+    end
+  else MustReject.
+Proof.
+  intros Hne Hp. unfold spec_locale_zone. destruct toks as [|t0 ts]; [congruence|]. rewrite Hp.
+  rewrite (segments_split rem [] []). destruct (split_single rem) as [lead o]. cbn [rev app].
+  destruct o as [[t r]|].
+  - destruct (single_is 120 t) eqn:E120; destruct (forallb is_empty_tok lead); try reflexivity;
+      cbn [proc_from]; rewrite E120; reflexivity.
+  - destruct (forallb is_empty_tok lead); reflexivity.
+Qed.
+
+Lemma rel_init (lead : list bytes) : rel false false extmap_default (mkAcc None None None (nil_b lead) true).
+Proof. unfold rel. cbn. repeat split; auto. Qed.
+
+(* SOUND: whatever the parser accepts is in the lenient language, with exactly that value *)
+Theorem locale_sound s l : locale_from_bytes s = Ok l ->
+  match spec_locale_zone (split s) with
+  | MustAccept v | Either v => v = l
+  | Outside => True
+  | MustReject => False
+  end.
+Proof.
+  unfold locale_from_bytes. rewrite langid_from_iter_spec.
+  destruct (spec_langid_prefix (split s)) as [[id rem]|] eqn:Hp; [|discriminate]. cbn [negb andb].
+  destruct (ext_from_iter rem) as [e| | |] eqn:Ee; cbn [bind]; try discriminate. intros H. injection H as <-.
+  rewrite (zone_shape (split s) id rem (split_nonempty s) Hp).
+  unfold ext_from_iter in Ee.
+  pose proof (split_single_spec rem) as SP. destruct (split_single rem) as [lead o]. destruct SP as [Hnl Ho].
+  set (R' := match o with None => [] | Some (t, r') => t :: r' end) in *.
+  assert (Er : rem = lead ++ R') by (destruct o as [[t r']|]; [destruct Ho as [-> _]; reflexivity|subst; subst R'; rewrite app_nil_r; reflexivity]).
+  assert (HR' : ext_stop R') by (apply o_stop; destruct o as [[t r']|]; [apply Ho|exact I]).
+  rewrite Er in Ee. rewrite (dispatch_lead lead (S (length (lead ++ R'))) false false extmap_default R' Hnl ltac:(lia)) in Ee.
+  destruct (forallb is_empty_tok lead); [|discriminate].
+  assert (Hfu : (length R' < S (length (lead ++ R')) - length lead)%nat) by (rewrite app_length; lia).
+  destruct (dispatch_sound (length R') R' (le_n _) HR' _ false false extmap_default _ e Hfu (rel_init lead) Ee) as (a' & Pa & Va).
+  rewrite Pa. destruct (ac_nodup a') eqn:N; cbn [negb]; [|exact I].
+  rewrite (Va eq_refl). destruct (ac_strict a'); reflexivity.
+Qed.
+
+(* COMPLETE: every strictly well-formed locale without duplicate keys is accepted, with the specified value *)
+Theorem locale_complete s v : spec_locale_zone (split s) = MustAccept v -> locale_from_bytes s = Ok v.
+Proof.
+  unfold locale_from_bytes. rewrite langid_from_iter_spec. intros Hz.
+  destruct (spec_langid_prefix (split s)) as [[id rem]|] eqn:Hp.
+  2:{ unfold spec_locale_zone in Hz. destruct (split s); [discriminate|]. rewrite Hp in Hz. discriminate. }
+  rewrite (zone_shape (split s) id rem (split_nonempty s) Hp) in Hz. cbn [negb andb].
+  pose proof (split_single_spec rem) as SP. destruct (split_single rem) as [lead o]. destruct SP as [Hnl Ho].
+  set (R' := match o with None => [] | Some (t, r') => t :: r' end) in *.
+  assert (Er : rem = lead ++ R') by (destruct o as [[t r']|]; [destruct Ho as [-> _]; reflexivity|subst; subst R'; rewrite app_nil_r; reflexivity]).
+  assert (HR' : ext_stop R') by (apply o_stop; destruct o as [[t r']|]; [apply Ho|exact I]).
+  destruct (forallb is_empty_tok lead) eqn:El; [|discriminate].
+  destruct (proc_from R' (mkAcc None None None (nil_b lead) true)) as [a'|] eqn:Pa; [|discriminate].
+  destruct (ac_nodup a') eqn:N; cbn [negb] in Hz; [|discriminate].
+  destruct (ac_strict a') eqn:Hstrict; [|discriminate]. injection Hz as <-.
+  unfold ext_from_iter. rewrite Er. rewrite (dispatch_lead lead (S (length (lead ++ R'))) false false extmap_default R' Hnl ltac:(lia)), El.
+  assert (Hfu : (length R' < S (length (lead ++ R')) - length lead)%nat) by (rewrite app_length; lia).
+  rewrite (dispatch_complete (length R') R' (le_n _) HR' _ false false extmap_default _ a' Hfu (rel_init lead) Pa Hstrict N).
+  reflexivity.
+Qed.
+
+(* REJECT: whatever the grammar reading rejects is an error (never a value) *)
+Corollary locale_rejects s : spec_locale_zone (split s) = MustReject -> exists e, locale_from_bytes s = Err e.
+Proof.
+  intros Hz. destruct (locale_from_bytes_total s) as [[l E]|[e E]]; [|eauto].
+  pose proof (locale_sound s l E) as Hs. rewrite Hz in Hs. destruct Hs.
+Qed.
